@@ -30,7 +30,12 @@ theorem get_set_same (s : State) (t : Bool) (x : Table) : (s.set t x).get t = x 
 theorem get_set_other (s : State) (t : Bool) (x : Table) : (s.set t x).get (!t) = s.get (!t) := by
   cases t <;> rfl
 
-theorem init_inv (h : Nat → Nat) : SInv h init := ⟨constructDefault_inv h, constructDefault_inv h⟩
+theorem initWith_inv (h : Nat → Nat) (ipb dcap : Nat) (hk : 0 < ipb) (hd : 0 < dcap) : SInv h (initWith ipb dcap) :=
+  ⟨constructDefault_inv h ipb dcap hk hd, constructDefault_inv h ipb dcap hk hd⟩
+
+theorem init_inv (h : Nat → Nat) : SInv h init := initWith_inv h 4 500 (by decide) (by decide)
+
+theorem abs_initWith (ipb dcap : Nat) : abs (initWith ipb dcap) = Spec.init := rfl
 
 theorem abs_init : abs init = Spec.init := rfl
 
@@ -72,10 +77,10 @@ theorem step_refines (kind : Kind) (h : Nat → Nat) (s : State) (op : Op) (hs :
   cases op with
   | construct t cap =>
     simp only [step, Spec.step, hav, Bool.not_true, Bool.false_eq_true, if_false, Option.map_some, abs_set]
-    refine ⟨by first | trivial | rfl, fun s' o e => by cases e; exact hs.set t (construct_inv h cap)⟩
+    refine ⟨by first | trivial | rfl, fun s' o e => by cases e; exact hs.set t (construct_inv h _ _ cap (hs.get t).ipb_pos (hs.get t).dcap_pos)⟩
   | constructDefault t =>
     simp only [step, Spec.step, hav, Bool.not_true, Bool.false_eq_true, if_false, Option.map_some, abs_set]
-    refine ⟨by first | trivial | rfl, fun s' o e => by cases e; exact hs.set t (constructDefault_inv h)⟩
+    refine ⟨by first | trivial | rfl, fun s' o e => by cases e; exact hs.set t (constructDefault_inv h _ _ (hs.get t).ipb_pos (hs.get t).dcap_pos)⟩
   | copyFrom t =>
     have := (hs.get (!t)).copyOf kind
     simp only [step, Spec.step, hav, Bool.not_true, Bool.false_eq_true, if_false, Option.map_some, abs_set, abs_get, this.2]
